@@ -6,6 +6,7 @@
 package ref
 
 import (
+	"reflect"
 	"sort"
 	"strconv"
 	"strings"
@@ -18,33 +19,36 @@ import (
 
 // Opts are the runtime options of one parse.
 type Opts struct {
-	Entry        string
-	File         string
-	AllowInvalid bool
-	NoRecover    bool
-	MaxExpr      uint64 // 0 = unlimited
-	StepCap      uint64 // model's own cap on evaluations (0 = 3e6): beyond it the case is skipped
-	MaxEvents    int    // cap on recorded events (0 = 100000), same meaning as mon.Trace.Max
-	DetectReentry bool  // abort when a rule is re-entered at an offset where it is active
-	Init          int   // >0: the state store starts as mon.InitialState(Init)
-	MemoPreds     bool  // variant used only to classify known finding F20: the verdict of a code predicate is cached per (predicate, offset) as Memoize(true) does, whatever its labels are
-	LRKeepSeeds   bool  // variant used only to classify known finding F06: a finished left-recursive result stays cached for its offset (as pigeon's leader memo does), so its blocks are not run again
-	LR            bool  // left recursion supported: left-recursive rules denote the left-associative iteration
+	Entry         string
+	File          string
+	AllowInvalid  bool
+	NoRecover     bool
+	MaxExpr       uint64 // 0 = unlimited
+	StepCap       uint64 // model's own cap on evaluations (0 = 3e6): beyond it the case is skipped
+	MaxEvents     int    // cap on recorded events (0 = 100000), same meaning as mon.Trace.Max
+	DetectReentry bool   // abort when a rule is re-entered at an offset where it is active
+	Init          int    // >0: the state store starts as mon.InitialState(Init)
+	MemoPreds     bool   // variant used only to classify known finding F20: the verdict of a code predicate is cached per (predicate, offset) as Memoize(true) does, whatever its labels are
+	LRKeepSeeds   bool   // variant used only to classify known finding F06: a finished left-recursive result stays cached for its offset (as pigeon's leader memo does), so its blocks are not run again
+	LR            bool   // left recursion supported: left-recursive rules denote the left-associative iteration
+	MemoAll       bool   // variant used only to classify known finding F22: every (expression, offset) result is cached as Memoize(true) does - value, end and the labels it bound, but neither its state changes nor its errors nor its blocks are replayed on a hit (non-left-recursive grammars)
 }
 
 // ErrRec is one predicted element of the error list.
 type ErrRec struct {
-	Line, Col, Off int
-	Rule           string // display name or name; "" when no rule is active
-	HasRule        bool
-	Inner          string
-	Kind           string // own, sentinel, panicerr, other
-	IsPanic        bool   // position not pinned
-	AltLine, AltCol int   // alternative accepted position (offset-0 ambiguity), 0 = none
+	Line, Col, Off  int
+	Rule            string // display name or name; "" when no rule is active
+	HasRule         bool
+	Inner           string
+	Kind            string // own, sentinel, panicerr, other
+	IsPanic         bool   // position not pinned
+	AltLine, AltCol int    // alternative accepted position (offset-0 ambiguity), 0 = none
 }
 
 // Prefix renders file:line:col (off): rule X.
-func (e ErrRec) Prefix(file string) string { return prefix(file, e.Line, e.Col, e.Off, e.Rule, e.HasRule) }
+func (e ErrRec) Prefix(file string) string {
+	return prefix(file, e.Line, e.Col, e.Off, e.Rule, e.HasRule)
+}
 
 func prefix(file string, line, col, off int, rule string, hasRule bool) string {
 	var sb strings.Builder
@@ -154,10 +158,12 @@ type interp struct {
 	depth     int
 	usesState bool
 	// where the parser "is" when a panic happens (for the recovered-panic error)
-	curPos  int
-	curRule *gast.Rule
+	curPos    int
+	curRule   *gast.Rule
 	panicking bool
 	predMemo  map[[2]int]bool
+	memoAll   map[[2]int]*memoEntry
+	bindLog   []binding
 	inHandler int
 	recDepth  int
 	recLeft   map[int]bool
@@ -169,10 +175,23 @@ type interp struct {
 }
 
 type seed struct {
-	ok  bool
-	end int
-	val any
-	st  *state
+	ok   bool
+	end  int
+	val  any
+	st   *state
+	kept bool // LRKeepSeeds: a finished result served to later references (which keep their own state)
+}
+
+type binding struct {
+	fp   uintptr
+	name string
+}
+
+type memoEntry struct {
+	ok     bool
+	end    int
+	val    any
+	labels frame
 }
 
 // Run evaluates the grammar on the input under the options.
@@ -335,6 +354,14 @@ func (it *interp) positions() {
 
 func (it *interp) posAt(off int) (int, int) { return it.line[off], it.col[off] }
 
+// Positions returns the (line, col) tables of an input under the documented position convention
+// (index = byte offset of a rune start, or len(in) for EOF; other entries are zero).
+func Positions(in []byte) (line, col []int) {
+	it := &interp{in: in}
+	it.positions()
+	return it.line, it.col
+}
+
 // decode returns the rune at off: eof, or (rune, width, invalid).
 func (it *interp) decode(off int) (r rune, w int, eof, invalid bool) {
 	if off >= len(it.in) {
@@ -439,6 +466,9 @@ func (it *interp) evalLR(r *gast.Rule, pos int, st *state, h *handler, inv bool)
 		if !sd.ok {
 			return false, pos, nil, st
 		}
+		if sd.kept {
+			return true, sd.end, sd.val, st
+		}
 		return true, sd.end, sd.val, sd.st
 	}
 	for _, head := range it.growing[pos] {
@@ -466,7 +496,9 @@ func (it *interp) evalLR(r *gast.Rule, pos int, st *state, h *handler, inv bool)
 	// blocks run again, its errors are reported again and de-duplicated)
 	delete(it.seeds, key)
 	if it.o.LRKeepSeeds {
-		it.seeds[key] = cur
+		kp := *cur
+		kp.kept = true
+		it.seeds[key] = &kp
 	}
 	if !cur.ok {
 		return false, pos, nil, st
@@ -485,6 +517,34 @@ func (it *interp) eval(e *gast.Expr, pos int, st *state, fr frame, h *handler, r
 	if it.cnt > it.o.StepCap {
 		it.panicking = true
 		panic(capPanic{})
+	}
+	if it.o.MemoAll {
+		if it.memoAll == nil {
+			it.memoAll = map[[2]int]*memoEntry{}
+		}
+		key := [2]int{e.ID, pos}
+		if m, hit := it.memoAll[key]; hit {
+			for k, v := range m.labels {
+				fr[k] = v
+			}
+			it.curPos, it.curRule = m.end, rule
+			return m.ok, m.end, m.val, st
+		}
+		logStart := len(it.bindLog)
+		defer func() {
+			if it.panicking {
+				return
+			}
+			// the labels this evaluation bound in its caller's frame are bound again on a hit
+			bound := frame{}
+			me := reflect.ValueOf(fr).Pointer()
+			for _, b := range it.bindLog[logStart:] {
+				if b.fp == me {
+					bound[b.name] = fr[b.name]
+				}
+			}
+			it.memoAll[key] = &memoEntry{ok: ok, end: end, val: val, labels: bound}
+		}()
 	}
 	it.res.KindsEval[e.Kind]++
 	it.depth++
@@ -561,6 +621,9 @@ func (it *interp) eval(e *gast.Expr, pos int, st *state, fr frame, h *handler, r
 			return false, pos, nil, st
 		}
 		fr[e.Label] = v
+		if it.o.MemoAll {
+			it.bindLog = append(it.bindLog, binding{reflect.ValueOf(fr).Pointer(), e.Label})
+		}
 		return true, end, v, nst
 
 	case gast.And:
@@ -762,7 +825,16 @@ func runeEq(in, want rune, ic bool) bool {
 func ClassMatch(c *gast.ClassSpec, r rune) bool {
 	m := classMember(c, r)
 	if !m && c.IgnoreCase {
-		m = classMember(c, unicode.ToLower(r)) || classMember(c, unicode.ToUpper(r))
+		// "some member equals r up to case": r's lower case, its upper case, the upper case of its
+		// lower case (runes such as the Kelvin sign fold onto a letter that is not their own upper
+		// case), or a listed char with the same lower case
+		lr := unicode.ToLower(r)
+		m = classMember(c, lr) || classMember(c, unicode.ToUpper(r)) || classMember(c, unicode.ToUpper(lr))
+		for _, ch := range c.Chars {
+			if unicode.ToLower(ch) == lr {
+				m = true
+			}
+		}
 	}
 	return m != c.Inverted
 }
